@@ -50,10 +50,17 @@ type c07Cell struct {
 	store      bool
 	advertised string // all, legacy, mixed (only for inmem/io)
 	requested  string
+	// noSessionIDs: the server is configured with GetSessionID returning "" (a stateful endpoint that
+	// issues no Mcp-Session-Id); it is still a stateful endpoint and cannot serve 2026-07-28
+	noSessionIDs bool
 }
 
 func (c c07Cell) String() string {
-	return fmt.Sprintf("transport=%s json=%v store=%v advertised=%s requested=%q", c.transport, c.jsonResp, c.store, c.advertised, c.requested)
+	x := ""
+	if c.noSessionIDs {
+		x = " GetSessionID=empty"
+	}
+	return fmt.Sprintf("transport=%s json=%v store=%v advertised=%s requested=%q%s", c.transport, c.jsonResp, c.store, c.advertised, c.requested, x)
 }
 
 var c07Legacy = []string{"2025-11-25", "2025-06-18", "2025-03-26", "2024-11-05"}
@@ -68,6 +75,12 @@ func c07NewServer() *Server {
 
 func c07Run(c c07Cell) (obs, sig, msg string) {
 	s := c07NewServer()
+	if c.noSessionIDs {
+		s = NewServer(&Implementation{Name: "srv", Version: "1"}, &ServerOptions{Logger: quietLogger, GetSessionID: func() string { return "" }})
+		AddTool(s, &Tool{Name: "t"}, func(ctx context.Context, r *CallToolRequest, in map[string]any) (*CallToolResult, any, error) {
+			return &CallToolResult{Content: []Content{&TextContent{Text: "ok"}}}, nil, nil
+		})
+	}
 	defer func() {
 		for ss := range s.Sessions() {
 			ss.Close()
@@ -357,6 +370,9 @@ func TestVerifC07(t *testing.T) {
 			for _, j := range []bool{false, true} {
 				for _, st := range []bool{false, true} {
 					cells = append(cells, c07Cell{transport: tr, jsonResp: j, store: st, advertised: "all", requested: r})
+					if tr == "stateful" {
+						cells = append(cells, c07Cell{transport: tr, jsonResp: j, store: st, advertised: "all", requested: r, noSessionIDs: true})
+					}
 				}
 			}
 		}
